@@ -314,7 +314,8 @@ def tripleProduct(a: Vec3, b: Vec3, c: Vec3) -> float:
     Returns:
         scalar result a · (b × c)
     """
-    # Compute cross product b × c using global temp vector
+    # Compute cross product b × c
+    crossCD = create()
     cross(crossCD, b, c)
     # Return dot product a · (b × c)
     return dot(a, crossCD)
@@ -344,6 +345,8 @@ def vectorDifference(A: "Cartesian", B: "Cartesian") -> float:
     # ⇒ sqrt(1 - cos(x)) = sqrt(2) * sin(x/2) 
     # Angle x/2 can be obtained as the angle between A and the normalized midpoint of A and B
     # ⇒ sin(x/2) = |cross(A, midpointAB)|
+    midpointAB = create()
+    crossCD = create()
     lerp(midpointAB, A, B, 0.5)
     normalize(midpointAB, midpointAB)
     cross(midpointAB, A, midpointAB)
@@ -368,6 +371,9 @@ def quadrupleProduct(out: Vec3, A: "Cartesian", B: "Cartesian", C: "Cartesian", 
     Returns:
         out
     """
+    crossCD = create()
+    scaledA = create()
+    scaledB = create()
     cross(crossCD, C, D)
     triple_product_acd = dot(A, crossCD)
     triple_product_bcd = dot(B, crossCD)
@@ -392,6 +398,8 @@ def slerp(out: Vec3, A: "Cartesian", B: "Cartesian", t: float) -> "Cartesian":
     if gamma < 1e-12:
         return lerp(out, A, B, t)
     
+    scaledA = create()
+    scaledB = create()
     weight_a = math.sin((1 - t) * gamma) / math.sin(gamma)
     weight_b = math.sin(t * gamma) / math.sin(gamma)
     scale(scaledA, A, weight_a)
